@@ -4,7 +4,7 @@ from .. import env, coq, runner, tables
 
 LEVEL = 'proof'
 META = dict(
-    text='Coq theorems, for every completion schedule, every next_job oracle and every fault sequence (universally quantified lists, proved by invariants and induction): the collector loop never exceeds the concurrency, starts nothing once the budget is used, delivers every completed result exactly once to on_job_result with the right job, never blocks with nothing in flight and halts only when idle and out of work; the stream client routes a response to the waiter of its message id only, never reuses an id, creates the job at most once, returns only that job\'s result, terminates after finitely many retryable faults and surfaces non-retryable errors. The retry decision function is regenerated from _get_retry_request_or_raise/_is_retryable_error on every run; both hand-written models are compared event by event with the implementation under a deterministic driver of the duet scheduler and of an asyncio loop.',
+    text='Coq theorems, for every completion schedule, every next_job oracle and every fault sequence (universally quantified lists, proved by invariants and induction): the collector loop never exceeds the concurrency, starts nothing once the budget is used, delivers every completed result exactly once to on_job_result with the right job, never blocks with nothing in flight and halts only when idle and out of work; the stream client routes a response to the waiter of its message id only, completes a submit future only through an event of its own job (its own response, the failure of its stream, its own cancellation, stop()) so that a late reply for a cancelled request completes nobody, hands the response to the current request of a waiting execution to that execution in the same step, never reuses an id, creates the job at most once, returns only that job\'s result, terminates after finitely many retryable faults and surfaces non-retryable errors. The retry decision function is regenerated from _get_retry_request_or_raise/_is_retryable_error on every run; both hand-written models are compared event by event with the implementation under a deterministic driver of the duet scheduler and of an asyncio loop.',
     note='Trusted: Coq kernel; the Python drivers in vf/checks/c20.py (fake Sampler, fake Quantum Engine stream and server, hand-driven duet scheduler / asyncio loop, trace printing); vf/tables_c20.py (evaluating the retry functions on the working tree). The duet and asyncio runtimes, the thread hand-off of AsyncioExecutor and the behaviour of the real gRPC layer are driven, not verified: theorems are about the models, the models are tied to the code by the regenerated retry table and by the trace comparison on enumerated/sampled schedules.',
     technique='Rocq/Coq proof over executable Gallina state machines + regenerated decision table + vm_compute trace correspondence under a deterministic event-loop driver',
 )
@@ -578,6 +578,7 @@ class StreamRun:
         self.saved_instance = AsyncioExecutor._instance
         AsyncioExecutor._instance = self.ex
         self.step = 0
+        self.delivered = None
         self.closed = False
         self.streams = []
         self.wire = []        # [stream no, message id, request, kind, (p, e), live]
@@ -721,6 +722,7 @@ class StreamRun:
     # ---- events ----
     def apply(self, ev):
         self.step += 1
+        self.delivered = None     # (message id, payload, execution that sent the request, its waiter was still waiting)
         k = ev[0]
         loop = self.ex.loop
         if k == 'Submit':
@@ -743,6 +745,7 @@ class StreamRun:
                 mid, resp, payload = self.pending.pop(ev[1])
                 waiter = self.manager._response_demux._subscribers.get(str(mid))
                 e = self.owner.get(mid)
+                self.delivered = (mid, payload, e, waiter is not None and not waiter.done())
                 loop.call_soon(self.streams[-1].put_nowait, resp)
                 if k == 'RespondCancel' and waiter is not None and not waiter.done() and e is not None \
                         and not self.futs[e].done():
@@ -780,13 +783,34 @@ class StreamRun:
         return e < len(self.futs) and not self.futs[e].done()
 
 
-def run_stream_case(mods, pre_progs, pre_jobs, fails, chooser):
-    """chooser(run) -> next event or None. Returns the observation record of the whole run."""
+def drain_event(run):
+    """The undisturbed server: handle the oldest request, else deliver the oldest response; None when nothing is left."""
+    if not any(run.running(e) for e in range(len(run.futs))):
+        return None
+    if run.wire:
+        return ('Process', 0)
+    if run.pending:
+        return ('Respond', 0)
+    return None
+
+
+def run_stream_case(mods, pre_progs, pre_jobs, fails, chooser, drain=False):
+    """chooser(run) -> next event or None. Returns the observation record of the whole run.
+
+    drain: after the chooser's events the server is left undisturbed (every request handled, every response delivered, oldest
+    first) and every submit still running must then finish (with an outcome the step oracles accept: its own)."""
     run = StreamRun(mods, pre_progs, pre_jobs, fails)
     events, checks = [], []
+    n_script = None
     try:
         while True:
-            ev = chooser(run)
+            ev = chooser(run) if n_script is None else None
+            if ev is None and drain:
+                if n_script is None:
+                    n_script = len(events)
+                    waiting = [e for e in range(len(run.futs)) if run.running(e)]
+                    budget = len(events) + len(run.wire) + len(run.pending) + 12 * len(waiting) + 4
+                ev = drain_event(run) if len(events) < budget else None
             if ev is None:
                 break
             before = [e for e in range(len(run.futs)) if run.running(e)]
@@ -794,11 +818,19 @@ def run_stream_case(mods, pre_progs, pre_jobs, fails, chooser):
             events.append(ev)
             checks += stream_step_oracles(run, ev, before)
         checks += stream_final_oracles(run)
+        if drain:
+            for e in waiting:
+                if run.running(e):
+                    mine = [(mid, kind) for s, x, mid, kind in run.reqs if x == e]
+                    checks.append(('starved', f'submit {e} (job j{e}) never received its outcome although, after the first {n_script} '
+                                              f'events, the server handled every request and every response was delivered (its '
+                                              f'requests: {mine}, {len(run.wire)} requests / {len(run.pending)} responses left)'))
     finally:
         run.close()
     return dict(pre_progs=sorted(pre_progs), pre_jobs=sorted(pre_jobs), fails=sorted(fails), events=events,
                 reqs=run.reqs, replies=run.replies, dones=[(s, e, o[:2]) for s, e, o in run.dones], cancels=run.cancels,
-                subs=run.subs, creates=run.creates, anomalies=run.anomalies, bad=checks)
+                subs=run.subs, creates=run.creates, anomalies=run.anomalies, bad=checks,
+                drain=(n_script if drain else None))
 
 
 def stream_step_oracles(run, ev, before):
@@ -834,6 +866,39 @@ def stream_step_oracles(run, ev, before):
             bad.append(('routing', f'submit {e} was completed with the result of job {o[1]}'))
         if o[0] in ('result', 'job') and run.creates.count(e) != (0 if e in run.pre_jobs0 else 1):
             bad.append(('once', f'submit {e} returned a result but its job was created {run.creates.count(e)} times'))
+    # provenance: an outcome reaches a submitter only through an event that concerns its own job - the response to its own
+    # request, a failure of the stream (that very exception), its own cancellation, or stop()
+    dl = run.delivered
+    for e, o in done_now.items():
+        if o[0] in ('result', 'job'):
+            ok = ev[0] == 'Respond' and dl is not None and dl[2] == e and tuple(dl[1]) == (o[0], o[1])
+        elif o[0] == 'stream':
+            ok = ev[0] == 'Respond' and dl is not None and dl[2] == e and tuple(dl[1]) == ('err', o[1])
+        elif o[0] == 'exn':
+            ok = ev[0] == 'Break' and o[2] == id(run.live_exc.get(step))
+        elif o[0] == 'cancelled':
+            ok = (ev[0] == 'Cancel' and ev[1] == e) or ev[0] == 'Stop' or (ev[0] == 'RespondCancel' and dl is not None and dl[2] == e)
+        else:
+            ok = False
+        if not ok:
+            about = (f'delivers the server\'s reply {dl[1]} to message {dl[0]} of submit {dl[2]}' if dl is not None
+                     else 'concerns no job of this submitter')
+            bad.append(('foreign', f'submit {e} (job j{e}) was completed with {o[:2]} at step {step} by the event {ev}, which {about}: '
+                                   f'an outcome that belongs to another job (or to none) was delivered to this submitter'))
+    # the response to the current request of a waiting execution takes effect at that execution: result / job are returned,
+    # an error code is raised or answered by the next request
+    if ev[0] == 'Respond' and dl is not None and dl[3] and dl[2] in before:
+        mid, payload, e, _ = dl
+        mine = [m for s, x, m, kind in run.reqs if x == e and s < step]
+        if mine and mine[-1] == mid:
+            o = done_now.get(e)
+            if payload[0] in ('result', 'job'):
+                served = o is not None and o[:2] == (payload[0], payload[1])
+            else:
+                served = (o is not None and o[:2] == ('stream', payload[1])) or any(x == e for x, _, _ in reqs_now)
+            if not served:
+                bad.append(('undelivered', f'the reply {payload} to message {mid}, the current request of submit {e}, was put on the '
+                                           f'stream but submit {e} neither finished with it nor sent a next request (got {o})'))
     # every execution still running has its current request subscribed and in flight (nothing lost)
     subs = run.subs[-1]
     inflight = {w[1] for w in run.wire if w[5]} | {mid for mid, _, _ in run.pending}
@@ -1067,6 +1132,79 @@ def fault_case(mods, rng, sprog, sjob, faults):
     return c
 
 
+def symbolic_chooser(ops):
+    """Events named by the execution they concern; the positions on the wire / among the responses are looked up in the run.
+
+    ('submit', p) ('process', e) ('reject', e, code) ('respond', e) ('respondcancel', e) ('cancel', e) ('break', X) ('stop',).
+    process/reject address the live (current stream) request of e, respond/respondcancel the outstanding response to e."""
+    it = iter(ops)
+
+    def choose(run):
+        for op in it:
+            k = op[0]
+            if k == 'submit':
+                return ('Submit', op[1])
+            if k in ('process', 'reject'):
+                idx = [i for i, w in enumerate(run.wire) if w[4][1] == op[1] and w[5]]
+                if idx:
+                    return ('Process', idx[-1]) if k == 'process' else ('RejectReq', idx[-1], op[2])
+            elif k in ('respond', 'respondcancel'):
+                idx = [i for i, (mid, _, _) in enumerate(run.pending) if run.owner.get(mid) == op[1]]
+                if idx:
+                    return ('Respond' if k == 'respond' else 'RespondCancel', idx[-1])
+            elif k == 'cancel':
+                return ('Cancel', op[1])
+            elif k == 'break':
+                return ('Break', op[1])
+            elif k == 'stop':
+                return ('Stop',)
+            # an op whose target does not exist (any more) is skipped
+        return None
+    return choose
+
+
+def cancel_race_grid(quick):
+    """A submitter withdraws (cancel) while the server's reply to its request is under way and other jobs are in flight.
+
+    n jobs, victim v; the others' requests untouched / handled (responses outstanding) / already answered once with
+    already-exists; before or after a retryable stream break (ids of retry requests); the victim's reply a result, a failed job,
+    an already-exists / does-not-exist / fatal code; cancel before the server handled the request, after, while the response is
+    being delivered (RespondCancel), twice, or by stop(). Afterwards the server is left undisturbed (drain)."""
+    out = []
+    for n in (2, 3):
+        for v in range(n):
+            for shared in (False, True):
+                for pre in ('none', 'break', 'handled+break'):
+                    for timing in ('cancel,process,respond', 'process,cancel,respond', 'process,respondcancel',
+                                   'process,cancel,cancel,respond'):
+                        for reply in ('result', 'job', 'JOB_ALREADY_EXISTS', 'PROGRAM_DOES_NOT_EXIST', 'INTERNAL'):
+                            for others in ('untouched', 'handled'):
+                                if quick and n == 3 and (timing.count('cancel,') == 2 or reply == 'PROGRAM_DOES_NOT_EXIST'):
+                                    continue
+                                ops = [('submit', 0 if shared else e) for e in range(n)]
+                                if pre == 'handled+break':
+                                    ops += [('process', e) for e in range(n)]
+                                if pre != 'none':
+                                    ops += [('break', 'ServiceUnavailable')]
+                                if others == 'handled':
+                                    ops += [('process', e) for e in range(n) if e != v]
+                                for t in timing.split(','):
+                                    if t == 'process':
+                                        ops.append(('process', v) if reply in ('result', 'job') else ('reject', v, reply))
+                                    else:
+                                        ops.append((t, v))
+                                out.append((dict(n=n, victim=v, shared=shared, pre=pre, timing=timing, reply=reply, others=others),
+                                            [v] if reply == 'job' else [], ops))
+    # the same races ended by stop() instead of a single cancel, and two victims
+    for pre in ('none', 'break'):
+        for tail in ([('process', 0), ('stop',), ('submit', 1), ('submit', 1)],
+                     [('process', 0), ('process', 1), ('cancel', 0), ('cancel', 1), ('respond', 1), ('respond', 0)],
+                     [('process', 1), ('cancel', 1), ('process', 0), ('respondcancel', 0), ('respond', 1)]):
+            ops = [('submit', 0), ('submit', 1), ('submit', 0)] + ([('break', 'Unknown')] if pre == 'break' else []) + tail
+            out.append((dict(pre=pre, tail=tail), [], ops))
+    return out
+
+
 def _lit_fault(f):
     if f[0] == 'NoFault':
         return 'NoFault'
@@ -1144,8 +1282,16 @@ def stream_streams(ctx, mods):
         pre_progs = [p for p in (0, 1) if rng.random() < 0.25]
         pre_jobs = [e for e in (0, 1, 2) if rng.random() < 0.12]
         fails = [e for e in (0, 1, 2, 3) if rng.random() < 0.15]
-        c = run_stream_case(mods, pre_progs, pre_jobs, fails, random_stream_chooser(rng, rng.choice([1, 2, 3, 3, 4]), rng.randint(4, 16)))
+        c = run_stream_case(mods, pre_progs, pre_jobs, fails, random_stream_chooser(rng, rng.choice([1, 2, 3, 3, 4]), rng.randint(4, 16)),
+                            drain=rng.random() < 0.5)
         c['stream'] = 'stream_random'
+        mcases.append(c)
+    # (C) cancellation racing with the server's reply while other jobs are in flight (fixed grid, every seed), then the
+    #     undisturbed server: everybody else must still get their own result
+    for params, fails, ops in cancel_race_grid(quick):
+        c = run_stream_case(mods, [], [], fails, symbolic_chooser(ops), drain=True)
+        c['stream'] = 'stream_cancel_race'
+        c['params'] = params
         mcases.append(c)
     for c in fcases + mcases:
         nfault = sum(1 for e in c['events'] if e[0] in ('Break', 'RejectReq', 'Cancel', 'RespondCancel', 'Stop'))
@@ -1157,7 +1303,7 @@ def stream_streams(ctx, mods):
             extra = dict(kind='stream_faults', faults=c['faults'], sprog=c['sprog'], sjob=c['sjob']) if 'faults' in c else {}
             ctx.violation(f'stream:{kind}', f'StreamManager: {what}',
                           dict(dict(kind='stream', pre_progs=c['pre_progs'], pre_jobs=c['pre_jobs'], fails=c['fails'],
-                                    events=c['events'], failed=kind), **extra))
+                                    events=c['events'], drain=c.get('drain'), failed=kind), **extra))
     for idx in fault_compare(ctx, fcases):
         c = fcases[idx]
         ctx.mark_broken('correspondence:stream_faults',
@@ -1179,8 +1325,10 @@ def replay_stream(mods, data):
         print('outcomes:', c['dones'], 'oracle failures:', c['bad'])
         return not c['bad']
     evs = [tuple(e) for e in data['events']]
-    it = iter(evs)
-    c = run_stream_case(mods, data['pre_progs'], data['pre_jobs'], data['fails'], lambda run: next(it, None))
+    drain = data.get('drain')
+    it = iter(evs if drain is None else evs[:drain])      # a drained case: the scripted prefix, then the undisturbed server again
+    c = run_stream_case(mods, data['pre_progs'], data['pre_jobs'], data['fails'], lambda run: next(it, None), drain=drain is not None)
+    print('events:', c['events'])
     print('requests:', c['reqs'])
     print('outcomes:', c['dones'], 'cancel rpcs:', c['cancels'])
     print('oracle failures:', c['bad'])
@@ -1202,8 +1350,15 @@ def run(ctx):
                 'non-trivial = at least one fault. (B) the whole manager: every event sequence of depth 5 (quick) / 6-7 (thorough) '
                 'over the state-dependent menu {submit, handle k-th request, deliver k-th response, retryable / fatal break, cancel}, '
                 'plus random schedules with up to 4 submits, shared programs, pre-existing programs/jobs, failing jobs, all error '
-                'codes, all 14 exception kinds, cancel-while-response-pending, stop(); non-trivial = >=2 requests and >=1 '
-                'fault/cancel. distinct by canonical input')
+                'codes, all 14 exception kinds, cancel-while-response-pending, stop(), half of them followed by the undisturbed '
+                'server (every request handled, every response delivered) after which nobody may be left waiting; non-trivial = '
+                '>=2 requests and >=1 fault/cancel. (C) fixed grid, every seed: a submitter cancels while the reply to its request '
+                'is under way and 1-2 other jobs are in flight: {2,3 jobs} x victim x shared/own program x {no break, retryable '
+                'break, handled then break} x {cancel before / after the server handled the request, during delivery, twice} x '
+                'reply {result, failed job, JOB_ALREADY_EXISTS, PROGRAM_DOES_NOT_EXIST, INTERNAL} x others {untouched, handled}, '
+                'plus stop() and two-victim variants, each followed by the undisturbed server. Every completion of a submit '
+                'future is judged step by step: it must be caused by its own response / its stream\'s failure / its own '
+                'cancellation / stop(). distinct by canonical input')
     ctx.assumptions += ['duet scheduler ticked by hand: completions are applied only when no task is ready (quiescent points)',
                         'the fake Sampler returns duet futures completed by the driver; results are integers',
                         'StreamManager runs on an asyncio loop that only the driver turns (AsyncioExecutor.submit unchanged, no thread); '
